@@ -30,6 +30,7 @@ type Options struct {
 	SelfLoops bool // allow U == V
 	Parallel  bool // allow an ordered pair to occur more than once (multigraph)
 	IsoReduce bool // one representative per isomorphism class
+	Forward   bool // only pairs with U < V: every labelled DAG whose ids are in a topological order
 }
 
 // String renders "n=3 0>1 0>1 2>2".
@@ -158,6 +159,9 @@ func Each(opt Options, f func(idx int, g Graph) bool) {
 		var pairs []Edge
 		for u := 0; u < n; u++ {
 			for v := 0; v < n; v++ {
+				if opt.Forward && u >= v {
+					continue
+				}
 				if u != v || opt.SelfLoops {
 					pairs = append(pairs, Edge{u, v})
 				}
